@@ -67,7 +67,7 @@ def case_gen(draw, files=False):
         # a text cell that reads exactly like the cell of another type next to it (an identifier / a flag kept as text)
         r_ = draw(st.integers(0, nrows - 1))
         rows[r_][draw(st.sampled_from(scols))] = str(rows[r_][draw(st.sampled_from(others))])
-    case = {'sep': sep, 'esc': esc, 'types': types, 'rows': rows}
+    case = {'sep': sep, 'esc': esc, 'types': types, 'rows': rows, 'tagged': draw(st.integers(0, 3)) == 0}
     if files:
         case['repeat'] = draw(st.sampled_from([1, 50, 3000]))
         case['longfield'] = draw(st.sampled_from([0, 0, 70000, 140000]))
@@ -76,6 +76,17 @@ def case_gen(draw, files=False):
 
 
 PYT = {'int': int, 'float': float, 'bool': bool, 'str': str}
+
+
+class Tag(str):
+    """a string carrying a marker type (what str-based enums and many libraries hand out): it IS a str with the same characters"""
+
+
+def tagged(case, r, n):
+    """the row as written: with case['tagged'] the text cells of every other row are instances of a str subclass"""
+    if not case.get('tagged') or n % 2:
+        return r
+    return [Tag(v) if type(v) is str else v for v in r]
 
 
 def same_field(t, a, b):
@@ -131,7 +142,7 @@ def check_memory(case):
     ctx = dict(case)
     dtype = schema(case)
     Item, _, _ = csv.create_schema_factory(dtype)
-    rows = [Item(*r) for r in case['rows']]
+    rows = [Item(*tagged(case, r, n)) for n, r in enumerate(case['rows'])]
     parser = csv.create_line_parser(dtype=dtype, separator=case['sep'], escapechar=case['esc'])
     r = drive.collect(rx.from_(rows).pipe(
         csv.dump(header=True, separator=case['sep'], escapechar=case['esc']),
@@ -164,7 +175,7 @@ def check_files(case):
         plain_rows[k][-1] = ('x' + chr(0xe9) + 'y ') * (case['longfield'] // 4)
     dtype = schema(case)
     Item, _, _ = csv.create_schema_factory(dtype)
-    rows = [Item(*r) for r in plain_rows]
+    rows = [Item(*tagged(case, r, n)) for n, r in enumerate(plain_rows)]
     d = tempfile.mkdtemp(prefix='rxsci_c18_')
     try:
         f = os.path.join(d, 'x.csv')
